@@ -1,7 +1,7 @@
 #!/bin/sh
 # usage: trymut.sh <patch.diff> <check id>...   applies a seeded change to /repo, runs the checks, reverts.
 set -u
-P="$1"; shift
+P="$(realpath "$1")"; shift
 cd /repo || exit 2
 if [ -n "$(git status --porcelain)" ]; then echo "repo not clean"; exit 2; fi
 git apply "$P" || { echo "patch does not apply"; exit 2; }
